@@ -12,7 +12,7 @@ LEVEL = "fault_enumeration"
 DECIDING = ["line_events", "error_events"]
 RULE = (
     "full product policy-subset(64) x fault kind x fault position(first scanned, middle, last, two lines) x "
-    "validation-mode override(none; no-raise,no-stop; raise; no-print,fail; match); thorough adds one arg-mismatch "
+    "validation-mode override(none; no-raise,no-stop; raise; no-print,fail; match); a two-member named-paths group whose members carry different overrides (the override is for that csvpath only); thorough adds one arg-mismatch "
     "program per numeric function, OR logic-mode and CsvPaths().csvpath() construction. Non-trivial: the run reaches "
     "at least one fault line; distinct = distinct (policy, kind, position, override, variant) tuples."
 )
@@ -125,6 +125,14 @@ def cases(tier):
             for pos in ("first", "two"):
                 for vm in ("none", "no-raise,no-stop"):
                     yield {"policy": pol, "kind": kind, "pos": pos, "vmode": vm, "variant": "headerless", "func": None}
+    # "a csvpath's validation-mode comment overrides the flags for that csvpath only": two members of one named-paths
+    # group, each with its own override (or none), each faulting on the same lines
+    for pol in subsets:
+        if "raise" in pol or "quiet" in pol or len(pol) < 2:
+            continue
+        for vms in (("no-print,fail", "none"), ("none", "no-print,fail"), ("stop", "none"), ("none", "stop"), ("no-raise,no-stop", "none"), ("stop", "no-print,fail")):
+            for method in ("collect_paths", "collect_by_line", "fast_forward_paths", "next_by_line"):
+                yield {"policy": pol, "kind": "argtype", "pos": "two", "vmode": vms[0], "vmode_b": vms[1], "variant": "group-isolation", "func": None, "method": method}
     if tier == "thorough":
         for pol in subsets:
             for func in NUMERIC_FUNCS:
@@ -143,9 +151,69 @@ def plan(tier, seed):
     return [{"shard": i, "nshards": n, "timeout": 1800} for i in range(n)]
 
 
+def run_group_isolation(case, agg):
+    from vfy import cps, env, hooks
+
+    pol, pos, method = case["policy"], case["pos"], case["method"]
+    faults = POSITIONS[pos]
+    rows, m = build("argtype", faults)
+    vms = [case["vmode"], case["vmode_b"]]
+    cps.reset_sandbox()
+    env.write_config(".", csvpath_policy=pol, csvpaths_policy=["collect", "print"])
+    try:
+        cs = env.new_csvpaths()
+        cps.add_file(cs, "data", [["a", "b", "c"]] + rows)
+        texts = []
+        for j, vm in enumerate(vms):
+            comment = f"id: m{j} " + (f"validation-mode: {vm.replace(',', ', ')} " if vm != "none" else "")
+            texts.append(f"~ {comment}~ $[1*][{m}]")
+        cs.paths_manager.add_named_paths(name="grp", paths=texts)
+        with hooks.recording(agg) as rec:
+            lines, exc = cps.run_method(cs, method, "grp", "data")
+        w = {"members": texts, "policy": pol, "method": method, "fault_lines": faults}
+        if exc is not None:
+            w["exc"] = f"{type(exc).__name__}: {str(exc)[:200]}"
+            return "group-exception", w
+        results = cs.results_manager.get_named_results("grp")
+        by_id = {}
+        for ev in rec.lines:
+            by_id.setdefault(ev["id"], []).append(ev)
+        for j, r_ in enumerate(results):
+            eff = effective(pol, vms[j])
+            c = r_.csvpath
+            processed = faults[:1] if eff["stop"] else list(faults)
+            cutoff = processed[-1] if eff["stop"] else NLINES - 1
+            problems = []
+            got_lines = sorted(set(e.line_count for e in (r_.errors or [])))
+            if eff["collect"]:
+                if got_lines != processed:
+                    problems.append(("collect", f"error line numbers {got_lines}", f"{processed}"))
+            elif got_lines:
+                problems.append(("collect", f"errors recorded for lines {got_lines} without 'collect'", "none"))
+            if c.is_valid != (not eff["fail"]):
+                problems.append(("fail", f"is_valid={c.is_valid}", f"is_valid={not eff['fail']}"))
+            printed = len(r_.printouts or [])
+            if eff["print"]:
+                if printed < len(processed):
+                    problems.append(("print", f"{printed} printed", f">= {len(processed)}"))
+            elif printed:
+                problems.append(("print", f"{printed} lines printed without 'print'", "0"))
+            considered = [ev["pln"] for ev in by_id.get(id(c), []) if ev["considered"]]
+            if considered != list(range(1, cutoff + 1)):
+                problems.append(("stop", f"lines offered to matcher {considered}", f"{list(range(1, cutoff + 1))}"))
+            if problems:
+                w.update({"member": j, "effective": eff, "problems": [list(map(str, p)) for p in problems[:4]]})
+                return "group-isolation:" + problems[0][0], w
+        return None
+    finally:
+        env.write_config(".")
+
+
 def run_case(case, agg):
     from vfy import env, hooks
 
+    if case.get("variant") == "group-isolation":
+        return run_group_isolation(case, agg)
     pol, kind, pos, vm, variant = case["policy"], case["kind"], case["pos"], case["vmode"], case["variant"]
     faults = POSITIONS[pos]
     rows, m = build(kind, faults, case.get("func"))
@@ -274,7 +342,7 @@ def run_shard(spec, agg):
         if i % spec["nshards"] != spec["shard"]:
             continue
         res = run_case(case, agg)
-        shape = "|".join(str(case[k]) for k in ("policy", "kind", "pos", "vmode", "variant", "func"))
+        shape = "|".join(str(case.get(k)) for k in ("policy", "kind", "pos", "vmode", "variant", "func", "vmode_b", "method"))
         if res is None:
             agg.held(shape, True, sample=case)
         else:
